@@ -167,6 +167,26 @@ func notAStorageDelegate(fn *ssa.Function, name string) string {
 			}
 		}
 	}
+	// the address of a result handed to another function (`defer s.observe(..., &err)`): the answer can be replaced there
+	for _, b := range fn.Blocks {
+		for _, in := range b.Instrs {
+			c, isC := in.(ssa.CallInstruction)
+			if !isC {
+				continue
+			}
+			for _, a := range c.Common().Args {
+				if al, isAl := a.(*ssa.Alloc); isAl && al.Parent() == fn {
+					for _, ret := range returnsOf(fn) {
+						for _, rv := range ret.Results {
+							if u, isU := rv.(*ssa.UnOp); isU && u.X == ssa.Value(al) {
+								return "hands the address of its result to " + shortCallee(calleeName(c)) + ", which can replace the storage's answer"
+							}
+						}
+					}
+				}
+			}
+		}
+	}
 	for _, b := range fn.Blocks {
 		for _, in := range b.Instrs {
 			switch x := in.(type) {
